@@ -7,6 +7,8 @@ vars == <<in, out, ph>>
 
 InjSeqs(S, n) == {s \in [1..n -> S] : \A i, j \in 1..n : i # j => s[i] # s[j]}
 Axes1 == UNION {InjSeqs(U, n) : n \in 1..Cardinality(U)}
+\* the second operand may also carry a label between those of the first (a non-integral number when it is a float axis)
+AxesB == UNION {InjSeqs(U \cup {3}, n) : n \in 1..3}
 XM == IF Full THEN Axes1 ELSE {<<2, 4>>, <<4, 2>>, <<4, 6>>, <<6, 2, 4>>, <<2>>}
 YM == {<<2, 4, 6>>, <<6, 2>>}
 Mk2(dims, xl, yl, base) == Fresh(dims, [i \in 1..Len(dims) |-> "i"],
@@ -19,7 +21,7 @@ DimConfigs == {<< <<"x">>, <<"x">> >>, << <<"x", "y">>, <<"x">> >>, << <<"x">>, 
 Init == in = <<>> /\ out = <<>> /\ ph = 0
 Choose ==
   /\ ph = 0 /\ ph' = 1 /\ out' = out
-  /\ \/ \E La, Lb \in Axes1 : in' = [fam |-> "1d", a |-> Mk2(<<"x">>, La, <<>>, 100), b |-> Mk2(<<"x">>, Lb, <<>>, 0)]
+  /\ \/ \E La \in Axes1 : \E Lb \in AxesB : in' = [fam |-> "1d", a |-> Mk2(<<"x">>, La, <<>>, 100), b |-> Mk2(<<"x">>, Lb, <<>>, 0)]
      \/ \E cfg \in DimConfigs : \E xa, xb \in XM : \E ya, yb \in YM :
           in' = [fam |-> "nd", a |-> Mk2(cfg[1], xa, ya, 100), b |-> Mk2(cfg[2], xb, yb, 0)]
 Apply ==
